@@ -447,6 +447,9 @@ def run(model, rep, tier):
     check_monomial_ravel(model, rep)
     rep.rule('R13.8', 'factor() prunes coefficients only where they are exactly zero (no magnitude threshold)')
     check_exact_pruning(model, rep)
+    rep.rule('R13.9', 'every name loaded in function.py resolves (symtable)')
+    from rules import names as _names
+    _names.check(model, rep, 'R13.9', ('function',), 400)
     rep.require('R13.2', 13)
     rep.require('R13.3', 4)
     rep.require('R13.4', 2)
